@@ -52,6 +52,8 @@ Section Sim.
   Proof. intros H. unfold w_group. rewrite w_header_sim, Sl, !w_linklist_sim by exact H. reflexivity. Qed.
   Lemma w_data_array_sim a : P a -> w_data_array t v' (phi a) = w_data_array t v a.
   Proof. intros H. unfold w_data_array. rewrite w_header_sim, !Sa, Sp, Sl, w_linklist_sim by exact H. reflexivity. Qed.
+  Lemma w_data_frame_sim a : P a -> w_data_frame t v' (phi a) = w_data_frame t v a.
+  Proof. intros H. unfold w_data_frame. rewrite w_header_sim, Sp, Sl by exact H. reflexivity. Qed.
   Lemma w_tag_sim a : P a -> w_tag t v' (phi a) = w_tag t v a.
   Proof. intros H. unfold w_tag. rewrite w_header_sim, Sp, Sl, !w_linklist_sim by exact H.
     rewrite (w_children_sim a s_features _ (w_feature t v) H) by apply w_feature_sim. reflexivity. Qed.
@@ -76,6 +78,7 @@ Section Sim.
     rewrite (w_children_sim a s_tags _ (w_tag t v) H) by apply w_tag_sim.
     rewrite (w_children_sim a s_multi_tags _ (w_multi_tag t v) H) by apply w_multi_tag_sim.
     rewrite (w_children_sim a s_sources _ (w_source t v walk_fuel) H) by apply w_source_sim.
+    rewrite (w_children_sim a s_data_frames _ (w_data_frame t v) H) by apply w_data_frame_sim.
     reflexivity. Qed.
   Lemma walk_v_sim : P 0 -> phi 0 = 0 -> walk_v t v' = walk_v t v.
   Proof. intros H0 E0. unfold walk_v. rewrite <- E0.
